@@ -18,6 +18,7 @@
 (*           from the SI unit, the written precision of their tabulated    *)
 (*           literal) and the SI values; later lines are judged against it *)
 (*  spec, inertia, debye     the spectroscopic helpers at sample points    *)
+(*  helper                   one helper called with an array argument      *)
 (*  element, mw              element tables, then molar masses (st keeps   *)
 (*                           the atomic weights)                           *)
 (*                                                                         *)
@@ -112,6 +113,9 @@ MatrixClauses(e) ==
             THEN {} ELSE {"ZeroMapsToZero"})
       \cup (IF \E n \in 1..Len(e.nums) : IsZero(e.nums[n]) THEN {} ELSE {"MachineryNoZeroProbe"})
       \cup (IF \A i \in Ix, j \in Ix : Positive(e.f[i][j]) THEN {} ELSE {"PositiveFactor"})
+      \* convert_unit(x, a, b) with positional arguments is the same call as with keywords
+      \cup (IF \A i \in Ix, j \in Ix : e.vp[i][j] = e.v[i][j][e.pidx]
+            THEN {} ELSE {"PositionalIsKeyword"})
 
 \* Rankine reading of x on scale u, in Dec (exact constants)
 D95 == <<18, -1>>
@@ -140,14 +144,19 @@ TempClauses(e) ==
                  TClose(e.via[i][j][k][n], e.v[i][k][n], {e.v[i][j][n], e.nums[n]})
             THEN {} ELSE {"Transitive"})
       \* a scale the catalogue does not define is judged by the algebra only
+      \cup (IF \A i \in 1..N, j \in 1..N : e.vp[i][j] = e.v[i][j][e.pidx]
+            THEN {} ELSE {"PositionalIsKeyword"})
 
+\* e.refused[k][i]: outcome against e.vs[i] when num is given as variant k
+\* (e.variants: 1.0, omitted, 0 - a refusal must not depend on the numeric argument)
 CrossClauses(e) ==
-   LET Ix == 1..Len(e.vs) IN
-   (IF \A i \in Ix : (e.utype # "" /\ e.vtypes[i] # "" /\ e.utype # e.vtypes[i]) => e.refused[i]
+   LET Ix == 1..Len(e.vs)  V == 1..Len(e.refused) IN
+   (IF \A k \in V, i \in Ix :
+          (e.utype # "" /\ e.vtypes[i] # "" /\ e.utype # e.vtypes[i]) => e.refused[k][i]
     THEN {} ELSE {"CrossTypeRefused"})
-   \cup (IF \A i \in Ix : (e.utype = "" \/ e.vtypes[i] = "") => e.refused[i]
+   \cup (IF \A k \in V, i \in Ix : (e.utype = "" \/ e.vtypes[i] = "") => e.refused[k][i]
          THEN {} ELSE {"UnknownUnitRefused"})
-   \cup (IF \A i \in Ix : (e.utype # "" /\ e.utype = e.vtypes[i]) => ~e.refused[i]
+   \cup (IF \A k \in V, i \in Ix : (e.utype # "" /\ e.utype = e.vtypes[i]) => ~e.refused[k][i]
          THEN {} ELSE {"EveryTypedUnitAccepted"})
 
 \* ------------------------------------------------------------------ array-valued arguments
@@ -247,7 +256,9 @@ DocClause(e, extra) ==
    IF e.doc /\ ~e.raised /\ ~Within(e.val, e.docval, Add(Rnd(e.doclit), extra), 7)
    THEN {"NoteDocValue"} ELSE {}
 DocAccepted(e) == IF e.doc /\ e.raised THEN {"NoteDocumentedKeyAccepted"} ELSE {}
-LitsOK(e) == IF WitnessesOK(e.lits) /\ WitnessesOK(e.doclit) THEN {} ELSE {"MachineryWitness"}
+LitsOK(e) == (IF WitnessesOK(e.lits) /\ WitnessesOK(e.doclit) THEN {} ELSE {"MachineryWitness"})
+             \* f(units=key) is the same call as f(key)
+             \cup (IF ~e.raised /\ e.kwval # e.val THEN {"KeywordIsPositional"} ELSE {})
 
 \* numerator of an R key: an energy unit, or "<volume> <pressure>"
 NumOK(cs) == LET w == Split(cs, BLANK) IN
@@ -304,6 +315,9 @@ HClauses(e) ==
    LitsOK(e) \cup DocAccepted(e) \cup DocClause(e, Zero)
    \cup SimpleTable(e, BLANK, CodeS, "energy", "J s", st.h0, st.h0Rnd, "HTable")
    \cup (IF ~e.raised /\ ~Within(Mul3(I(2), Pi, e.bar), e.val, Zero, 7) THEN {"HBar"} ELSE {})
+   \* bar=False is the default; bar given positionally is bar given by keyword
+   \cup (IF ~e.raised /\ e.barF # e.val THEN {"HBarFalseIsDefault"} ELSE {})
+   \cup (IF ~e.raised /\ e.barpos # e.bar THEN {"HBarPositional"} ELSE {})
 CClauses(e) ==
    LitsOK(e) \cup DocAccepted(e) \cup DocClause(e, Zero)
    \cup SimpleTable(e, SLASH, CodeS, "length", "m/s", st.c0, st.c0Rnd, "CTable")
@@ -340,6 +354,15 @@ AccClauses(e) ==
                 \cup DocClause(e, Add(Rnd(e.lits), Add(rk, IF Usable(e.ref) THEN RndG(e.ref) ELSE Zero)))
            [] OTHER -> {"UnknownAccessor"})
 
+\* module-level constants: Na is used by the clauses above; e (elementary charge, C) defines
+\* the electron volt: 1 J = (1/e) eV, i.e. G("eV") * e = 1
+ConstClauses(e) ==
+   (IF WitnessesOK(e.lits) THEN {} ELSE {"MachineryWitness"})
+   \cup (IF e.name = "e"
+         THEN IF Usable("eV") /\ Within(Mul(G("eV"), e.val), I(1), Add(RndG("eV"), Rnd(e.lits)), 7)
+              THEN {} ELSE {"ElementaryChargeIsJoulePerEV"}
+         ELSE {})
+
 \* ------------------------------------------------------------------ spectroscopic helpers
 \* quantities in the order <<energy J, frequency Hz, temperature K, wavenumber 1/cm>>;
 \* e.xs[a] a sample of quantity a, e.g[a][b] = a_to_b(xs[a]) (g[a][a] = xs[a]),
@@ -370,9 +393,17 @@ DebyeClauses(e) ==
    \cup (IF Close(Mul(I(6), Mul3(e.e, e.e, e.e)), Mul(Pi, Mul3(e.d, e.d, e.d)), 6)
          THEN {} ELSE {"DebyeEinsteinDefinition"})
 
+\* a helper called with an array-valued argument (e.kind): element-wise the scalar result,
+\* the caller's container untouched; a refused container is only required to be untouched
+HelperClauses(e) ==
+   (IF SeqEq2(e.x, e.after) THEN {} ELSE {"InputUntouched"})
+   \cup (IF ~e.raised /\ ~SeqClose2(e.y, e.s) THEN {"ArrayIsMapOfScalar"} ELSE {})
+
 \* ------------------------------------------------------------------ elements
 ElementClauses(e) ==
-   (IF e.z \in Elements /\ Symbols[e.z] # e.sym THEN {"MachinerySymbol"} ELSE {})
+   (IF e.z \in Elements /\ (\E k \in 1..Len(SymbolsOf(e.z)) : SymbolsOf(e.z)[k] = e.sym)
+       /\ (\E k \in 1..Len(SymbolsOf(e.z)) : SymbolsOf(e.z)[k] = e.symS)
+    THEN {} ELSE {"MachinerySymbol"})
    \cup (IF e.awZ.has = e.awS.has /\ (e.awZ.has => Equal2(e.awZ.v, e.awS.v))
          THEN {} ELSE {"ElementLookupAgrees"})
    \cup (IF e.sZ.has = e.sS.has /\ (e.sZ.has => Equal2(e.sZ.v, e.sS.v))
@@ -395,7 +426,7 @@ Clauses(e) ==
      [] e.ev = "array" -> ArrayClauses(e)
      [] e.ev = "unit" -> UnitClauses(e)
      [] e.ev = "entry" -> EntryClauses(e)
-     [] e.ev = "const" -> IF WitnessesOK(e.lits) THEN {} ELSE {"MachineryWitness"}
+     [] e.ev = "const" -> ConstClauses(e)
      [] e.ev = "R" -> RClauses(e)
      [] e.ev = "kb" -> KbClauses(e)
      [] e.ev = "h" -> HClauses(e)
@@ -404,6 +435,7 @@ Clauses(e) ==
      [] e.ev = "spec" -> SpecClauses(e)
      [] e.ev = "inertia" -> InertiaClauses(e)
      [] e.ev = "debye" -> DebyeClauses(e)
+     [] e.ev = "helper" -> HelperClauses(e)
      [] e.ev = "element" -> ElementClauses(e)
      [] e.ev = "mw" -> MwClauses(e)
      [] OTHER -> {"UnknownEvent"}
